@@ -85,7 +85,7 @@ func (it *Iterator) Refresh() {
 		itm := it.snap.db.ptrToItem(it.GetNode().Item())
 		vyield(SiteIterRefresh)
 		it.iter.Close()
-		it.iter = it.snap.db.store.NewIterator(it.snap.db.iterCmp, it.buf)
+		it.iter = it.snap.db.store.NewIterator(it.snap.db.insCmp, it.buf)
 		it.iter.Seek(unsafe.Pointer(itm))
 	}
 }
@@ -112,7 +112,12 @@ func (m *Nitro) NewIterator(snap *Snapshot) *Iterator {
 	buf := snap.db.store.MakeBuf()
 	return &Iterator{
 		snap: snap,
-		iter: m.store.NewIterator(m.iterCmp, buf),
+		// Versions of a key are ordered by (key, bornSn). The iterator has to use
+		// the same order: it re-searches its position when the node it stands on
+		// is unlinked, and a key-only search would move it back to the oldest
+		// version of that key. A seek key has bornSn 0 and sorts before every
+		// version of its key.
+		iter: m.store.NewIterator(m.insCmp, buf),
 		buf:  buf,
 	}
 }
